@@ -149,7 +149,24 @@ def one(P, std, payload, mons=None):
     return None, text, ncom
 
 
+def check_raw(payload):
+    std = payload["std"]
+    vs = []
+    d = parse_monitored(payload["text"], std, ignore_comments=False, process_directives=True)
+    if d.error is not None:
+        vs.append(viol(payload.get("key", "keep:rejected"), str(d.error)[:160]))
+    else:
+        got = [list(x) for x in tree_sequence(d.tree) if x[0] != "S"]
+        if got != payload["comments"]:
+            vs.append(viol(payload.get("key", "directives:sequence"), "comment/directive nodes %r, expected %r" % (got, payload["comments"])))
+        elif d.conservation:
+            vs.append(viol("keep:item-conservation", "; ".join(d.conservation)))
+    return {"violations": vs, "digests": [], "monitors": {"comments_checked": 1}, "tally": {}}
+
+
 def check(payload):
+    if payload.get("mode") == "raw":
+        return check_raw(payload)
     P = payload_program(payload)
     std = payload["std"]
     viols, digs = [], []
@@ -168,6 +185,7 @@ def check(payload):
         Q = shrink_program(P, still, budget=80)
         w, qtext, _ = one(Q, std, payload)
         v["shrunk"] = {"source": qtext, "detail": w["detail"] if w else None}
+        v["payload"] = dict(payload, program=Q.to_json())
         viols.append(v)
     return {"violations": viols, "digests": digs, "monitors": mons, "tally": {"layout": [payload["li"]]},
             "sample": {"text": text[:800]}}
